@@ -83,6 +83,7 @@ SHAPES = {
     'lipid': ([('B', 'PO4', 1, ''), ('B', 'PO4', 2, '')], [(0, 1)]),
     'icodes': ([('A', 'ALA', 2, ''), ('A', 'ALA', 2, 'A'), ('A', 'GLY', 2, 'B')], [(0, 1), (1, 2)]),
     'mixed': ([('A', 'ALA', 1, ''), ('A', 'PO4', 2, '')], [(0, 1)]),
+    'from-zero': ([('A', 'GLY', 0, ''), ('A', 'ALA', 1, ''), ('A', 'PO4', 0, '')], [(0, 1), (1, 2)]),
 }
 
 
@@ -139,7 +140,7 @@ def build(system_spec, ff):
 def all_specs():
     specs = []
     for chain, name, number, hashed in itertools.product((None, 'A', 'B'), (None, 'ALA', 'GLY', 'PO4', 'nter', 'cter'),
-                                                         (None, 1, 2, 45), (False, True)):
+                                                         (None, 0, 1, 2, 45), (False, True)):
         if hashed and number is None:
             continue
         if name in ('nter', 'cter') and number is not None:
@@ -157,7 +158,7 @@ def all_specs():
     return sorted(set(specs))
 
 
-REDUCED = ['ALA', 'A-GLY2', 'B-ALA', 'PO4#2', 'PO42', 'nter', 'A-cter', 'GLY45', '#1', 'B-45', 'A-PO4', 'ALA#3']
+REDUCED = ['ALA', 'A-GLY2', 'B-ALA', 'PO4#2', 'PO42', 'nter', 'A-cter', 'GLY45', '#1', 'B-45', 'A-PO4', 'ALA#3', 'GLY0', '#0']
 
 
 def check_requests(system_spec, requests, kind, acc, sample=False):
@@ -251,7 +252,7 @@ def annotate_items(tier):
     systems = [(n,) for n in names] + list(itertools.product(names, repeat=2))
     if tier == 'quick':
         systems = [(n,) for n in names] + [s for s in itertools.product(names, repeat=2)
-                                           if s[0] in ('lipid', 'single', 'path') or s[1] in ('star', 'icodes')]
+                                           if s[0] in ('lipid', 'single', 'path') or s[1] in ('star', 'icodes', 'from-zero')]
     specs = all_specs()
     items = []
     for system_spec in systems:
